@@ -79,6 +79,23 @@ fn main() {
         }
         return;
     }
+    if args.len() >= 2 && args[1] == "jslim" {
+        // debugging aid: evaluate files in one context; a file name prefixed with "L<n>:" runs under loop limit n
+        let (mut ctx, host) = boa_sim::js::new_default_context();
+        for f in &args[2..] {
+            let (lim, path) = match f.strip_prefix('L').and_then(|r| r.split_once(':')) {
+                Some((n, p)) => (n.parse::<u64>().ok(), p.to_string()),
+                None => (None, f.clone()),
+            };
+            let mut rl = boa_engine::vm::RuntimeLimits::default();
+            if let Some(n) = lim { rl.set_loop_iteration_limit(n); }
+            ctx.set_runtime_limits(rl);
+            let src = std::fs::read_to_string(&path).expect("read");
+            let r = ctx.eval(boa_engine::Source::from_bytes(src.as_str()));
+            println!("{f}: {} jobs={:?} trace {:?}", boa_sim::js::completion(&r, &mut ctx), ctx.run_jobs().is_ok(), host.trace.take());
+        }
+        return;
+    }
     if args.len() >= 2 && args[1] == "list" {
         for p in boa_sim::props() {
             println!("{}", p.id);
